@@ -182,7 +182,11 @@ func (a *AddrManager) safelyCheckPassword(privPass []byte) error {
 	if err != nil {
 		return err
 	}
-	a.masterKeyPriv.Zero()
+	// while unlocked the derived master key stays in use (reveal mnemonic,
+	// lazy private derivation); it is zeroed when the keys are cleared
+	if !a.unlocked {
+		a.masterKeyPriv.Zero()
+	}
 	return nil
 }
 
